@@ -532,7 +532,8 @@ pub fn run(ctx: &Ctx) -> i32 {
          degenerate forms (every call of 40 well-known names with no argument / each of 74 odd literals and names as its argument, every binary operator over those, prefix/postfix/index/slice/member/ternary forms, all systematically, then nested once or twice more at random; in 12 statement contexts under 7 pragmas), hostile generated programs, corpus mutants with pragmas removed. Each case runs all 30 analyze_for_* entry points under catch_unwind inside worker subprocesses of the release build and of a build with overflow checks. \
          evaluation = one (program, detector, build) call; non-trivial = parser-accepted program; distinct by (workload, program name)",
     );
-    let release = std::env::current_exe().map(|p| p.to_string_lossy().to_string()).unwrap_or_default();
+    // (the running image itself, even if the file on disk has been rebuilt meanwhile)
+    let release = "/proc/self/exe".to_string();
     let chk = std::env::var("VMON_CHK_BIN").unwrap_or_else(|_| format!("{}/target/chk/vmon", VERIF_DIR));
     let have_chk = std::path::Path::new(&chk).exists();
     if !have_chk && ctx.replay.is_none() {
